@@ -24,6 +24,7 @@ EXPLANATION = (
     "the fold of + over the per-bloc profiles and by_bloc returns (dict, aggregate). Does NOT decide "
     "totals / well-formedness for all parameters and random streams."
 )
+EXPLANATION += ' Also decided (prerequisites and later clauses): the unit weight of a drawn ballot is read off the Ballot call itself and is decided in a restructured function too.'
 ASSUMPTIONS = ["apportionment.methods.compute('huntington', ...) is Huntington-Hill and returns one count per proportion, in order (trusted)",
                "numpy.random.choice(replace=False) returns distinct members of the population (trusted)"]
 TRUSTED = ["apportionment.methods.compute", "numpy.random.choice"]
